@@ -1,6 +1,7 @@
 package worlds
 
 import (
+	"math"
 	"fmt"
 
 	"github.com/bradenaw/juniper/iterator"
@@ -172,11 +173,11 @@ func (b *sbuild) build(n *pnode, owner string) stream.Stream[int] {
 	case "peek":
 		return &peekAdaptor{b: b, inner: stream.WithPeek(kid(0, "WithPeek")), peeks: n.peeks}
 	case "chunk":
-		sc := &sepChunks{inner: stream.Chunk(kid(0, "Chunk"), n.n), limit: n.n, what: "Chunk"}
+		sc := &sepChunks{inner: guardS[[]int](b.r, n.n, stream.Chunk(kid(0, "Chunk"), n.n)), limit: n.n, what: "Chunk"}
 		b.seps = append(b.seps, sc)
 		return sc
 	case "chunkflat":
-		return stream.FlattenSlices(stream.Chunk(kid(0, "Chunk"), n.n))
+		return stream.FlattenSlices(guardS[[]int](b.r, n.n, stream.Chunk(kid(0, "Chunk"), n.n)))
 	case "runssep":
 		return &sepRuns{inner: stream.Runs(kid(0, "Runs"), func(a, c int) bool { return coarseEq(n.n, a, c) })}
 	case "runsflat":
@@ -434,6 +435,7 @@ func (c *countIter) Next() (int, bool) {
 }
 
 type ibuild struct {
+	r    *R
 	byID map[int]*countIter
 	peekViolation string
 }
@@ -475,9 +477,9 @@ func (b *ibuild) build(n *pnode) iterator.Iterator[int] {
 	case "peek":
 		return &ipeekAdaptor{b: b, inner: iterator.WithPeek(kid(0)), peeks: n.peeks}
 	case "chunk":
-		return &isepChunks{inner: iterator.Chunk(kid(0), n.n)}
+		return &isepChunks{inner: guardI[[]int](b.r, n.n, iterator.Chunk(kid(0), n.n))}
 	case "chunkflat":
-		return iterator.Flatten(iterator.Map(iterator.Chunk(kid(0), n.n), func(c []int) iterator.Iterator[int] { return iterator.Slice(c) }))
+		return iterator.Flatten(iterator.Map(guardI[[]int](b.r, n.n, iterator.Chunk(kid(0), n.n)), func(c []int) iterator.Iterator[int] { return iterator.Slice(c) }))
 	case "runssep":
 		return &isepRuns{b: b, inner: iterator.Runs(kid(0), func(a, c int) bool { return coarseEq(n.n, a, c) })}
 	case "runsflat":
@@ -587,4 +589,66 @@ func (p *ipeekAdaptor) Next() (int, bool) {
 		return w, ok2
 	}
 	return p.inner.Next()
+}
+
+
+// ---- Chunk with the largest legal chunk size -------------------------------------------------------
+//
+// A chunk size of math.MaxInt is legal ("everything in one chunk"). A panic inside Chunk's Next for
+// that size is reported under a signature of its own (it is a listed known finding, see
+// known_findings.json) instead of the generic panic signature.
+
+const hugeChunk = math.MaxInt
+
+type sGuard[T any] struct {
+	r     *R
+	inner stream.Stream[T]
+}
+
+func guardS[T any](r *R, n int, s stream.Stream[T]) stream.Stream[T] {
+	if n != hugeChunk {
+		return s
+	}
+	r.Probe("chunk-size-maxint")
+	return &sGuard[T]{r: r, inner: s}
+}
+
+func (g *sGuard[T]) Next(ctx context.Context) (v T, err error) {
+	defer func() {
+		if p := recover(); p != nil {
+			if p == sim.Killed {
+				panic(p)
+			}
+			g.r.Violate("C07", "chunk/panic/chunk-size-maxint/stream", "stream.Chunk with chunkSize = math.MaxInt panicked in Next: %v", p)
+			err = stream.End
+		}
+	}()
+	return g.inner.Next(ctx)
+}
+
+func (g *sGuard[T]) Close() { g.inner.Close() }
+
+type iGuard[T any] struct {
+	r     *R
+	inner iterator.Iterator[T]
+}
+
+func guardI[T any](r *R, n int, it iterator.Iterator[T]) iterator.Iterator[T] {
+	if n != hugeChunk {
+		return it
+	}
+	return &iGuard[T]{r: r, inner: it}
+}
+
+func (g *iGuard[T]) Next() (v T, ok bool) {
+	defer func() {
+		if p := recover(); p != nil {
+			if p == sim.Killed {
+				panic(p)
+			}
+			g.r.Violate("C07", "chunk/panic/chunk-size-maxint/iterator", "iterator.Chunk with chunkSize = math.MaxInt panicked in Next: %v", p)
+			ok = false
+		}
+	}()
+	return g.inner.Next()
 }
